@@ -271,6 +271,24 @@ theorem roundRobin_offered (rr : RoundRobin) (parts : List Int) (hp : parts ≠ 
   · simp only [h, if_true]; exact getElem?_mem_of_lt parts 0 hL
   · simp only [h, if_false]; exact getElem?_mem_of_lt parts _ (by omega)
 
+/-- … also when the partition list changes between calls (grows, shrinks in the middle of a chunk): the j-th answer
+is one of the partitions offered to the j-th call, from any state -/
+theorem roundRobin_var_offered (lists : List (List Int)) (hne : ∀ l ∈ lists, l ≠ []) :
+    ∀ (rr : RoundRobin) (j : Nat) (hj : j < lists.length),
+      ∃ p, (rr.runVar lists)[j]? = some (some p) ∧ p ∈ lists[j] := by
+  induction lists with
+  | nil => intro rr j hj; simp at hj
+  | cons l rest ih =>
+    intro rr j hj
+    simp only [RoundRobin.runVar]
+    cases j with
+    | zero =>
+      obtain ⟨p, hp, hm⟩ := roundRobin_offered rr l (hne l (List.mem_cons_self ..))
+      exact ⟨p, by simp [hp], by simpa using hm⟩
+    | succ k =>
+      obtain ⟨p, hp, hm⟩ := ih (fun l' h => hne l' (List.mem_cons_of_mem _ h)) (rr.balance l).1 k (by simpa using hj)
+      exact ⟨p, by simpa using hp, by simpa using hm⟩
+
 /-- `ChunkSize < 1` behaves as `ChunkSize = 1` -/
 theorem roundRobin_chunk_default (c : Int) (hc : c < 1) (idx : Nat) (cnt : Int) (parts : List Int) :
     (RoundRobin.balance ⟨c, idx, cnt⟩ parts).2 = (RoundRobin.balance ⟨1, idx, cnt⟩ parts).2 := by
